@@ -352,6 +352,124 @@ def check(env, inst, timeout_ms=10000):
 tv.register("c06-derived", gen, check)
 
 
+# ---- infix operators / methods applied to COMPOUND operands (the operator code may look at the operand's shape) -----------------
+def gen_shapes(env, tier):
+    from engine.tv.grammar import Grammar, dedup
+    g = Grammar(env, widths=(2,), quantifiers=False, uf=False)
+    l1 = dedup(g.level1())
+    reps = g.representatives(l1)
+    m = env.formula_manager
+    pools = {}
+    for srt in (g.B, g.I, g.R):
+        pools[srt] = list(g.sym[srt]) + list(g.const.get(srt, [])[:3]) + [t for t in reps if env.stc.get_type(t) == srt]
+    bv = [t for t in g.sym if t.is_bv_type()][0]
+    pools[bv] = list(g.sym[bv]) + list(g.const.get(bv, [])[:2]) + [t for t in reps if env.stc.get_type(t) == bv]
+    # n-ary products / sums with a constant in every position (shapes a binary representative does not have)
+    i, j = g.sym[g.I]
+    r, q = g.sym[g.R]
+    pools[g.I] += [m.Times(i, m.Int(-1), j), m.Times(m.Int(-1), i, j), m.Times(i, j, m.Int(-1)), m.Times(i, m.Int(-1)), m.Times(m.Int(-1), i),
+                   m.Plus(i, m.Int(-1), j), m.Minus(m.Int(0), i), m.Times(i, m.Int(-1), m.Int(3))]
+    pools[g.R] += [m.Times(r, m.Real(-1), q), m.Times(m.Real(-1), r, q), m.Times(r, m.Real(-1)), m.Minus(m.Real(0), r), m.Div(r, m.Real(-1))]
+    stride = 3 if tier == "quick" else 1
+    out = []
+    arith = [("neg", 1), ("+", 2), ("-", 2), ("<", 2), ("<=", 2), (">", 2), (">=", 2), ("Equals", 2), ("NotEquals", 2), ("*c", 1), ("c-", 1),
+             ("Ite", 2)]
+    for srt in (g.I, g.R):
+        for nm, ar in arith:
+            for x in pools[srt]:
+                if ar == 1:
+                    out.append((nm, srt, x, None))
+                else:
+                    for y in pools[srt][::stride]:
+                        out.append((nm, srt, x, y))
+    for nm, ar in (("&", 2), ("|", 2), ("^", 2), ("~", 1), ("Implies", 2), ("Iff", 2), ("And", 2), ("Or", 2)):
+        for x in pools[g.B]:
+            if ar == 1:
+                out.append((nm, g.B, x, None))
+            else:
+                for y in pools[g.B][::stride]:
+                    out.append((nm, g.B, x, y))
+    for nm, ar in (("neg", 1), ("~", 1), ("+", 2), ("-", 2), ("*", 2), ("&", 2), ("|", 2), ("^", 2), ("<", 2), ("<=", 2), (">", 2), (">=", 2),
+                   ("/", 2), ("%", 2), ("<<", 2), (">>", 2), ("BVSLT", 2), ("BVSGE", 2), ("BVComp", 2), ("Equals", 2)):
+        for x in pools[bv]:
+            if ar == 1:
+                out.append((nm, bv, x, None))
+            else:
+                for y in pools[bv][::stride]:
+                    out.append((nm, bv, x, y))
+    return out
+
+
+def shape_apply(nm, srt, x, y, m):
+    isbv = srt.is_bv_type()
+    table = {
+        "neg": lambda: -x, "+": lambda: x + y, "-": lambda: x - y, "<": lambda: x < y, "<=": lambda: x <= y, ">": lambda: x > y,
+        ">=": lambda: x >= y, "Equals": lambda: x.Equals(y), "NotEquals": lambda: x.NotEquals(y), "*c": lambda: x * 3, "c-": lambda: 7 - x,
+        "Ite": lambda: (x < y).Ite(x, y) if not isbv else None, "&": lambda: x & y, "|": lambda: x | y, "^": lambda: x ^ y, "~": lambda: ~x,
+        "Implies": lambda: x.Implies(y), "Iff": lambda: x.Iff(y), "And": lambda: x.And(y), "Or": lambda: x.Or(y), "*": lambda: x * y,
+        "/": lambda: x / y, "%": lambda: x % y, "<<": lambda: x << y, ">>": lambda: x >> y, "BVSLT": lambda: x.BVSLT(y),
+        "BVSGE": lambda: x.BVSGE(y), "BVComp": lambda: x.BVComp(y)}
+    return table[nm]()
+
+
+def shape_expect(nm, srt, zx, zy):
+    isbv = srt.is_bv_type()
+    if isbv:
+        w = srt.width
+        table = {"neg": lambda: -zx, "~": lambda: ~zx, "+": lambda: zx + zy, "-": lambda: zx - zy, "*": lambda: zx * zy, "&": lambda: zx & zy,
+                 "|": lambda: zx | zy, "^": lambda: zx ^ zy, "<": lambda: z3.ULT(zx, zy), "<=": lambda: z3.ULE(zx, zy),
+                 ">": lambda: z3.UGT(zx, zy), ">=": lambda: z3.UGE(zx, zy), "/": lambda: z3.UDiv(zx, zy), "%": lambda: z3.URem(zx, zy),
+                 "<<": lambda: zx << zy, ">>": lambda: z3.LShR(zx, zy), "BVSLT": lambda: zx < zy, "BVSGE": lambda: zx >= zy,
+                 "BVComp": lambda: z3.If(zx == zy, z3.BitVecVal(1, 1), z3.BitVecVal(0, 1)), "Equals": lambda: zx == zy}
+        return table[nm]()
+    if srt.is_bool_type():
+        table = {"&": lambda: z3.And(zx, zy), "|": lambda: z3.Or(zx, zy), "^": lambda: z3.Xor(zx, zy), "~": lambda: z3.Not(zx),
+                 "Implies": lambda: z3.Implies(zx, zy), "Iff": lambda: zx == zy, "And": lambda: z3.And(zx, zy), "Or": lambda: z3.Or(zx, zy)}
+        return table[nm]()
+    table = {"neg": lambda: -zx, "+": lambda: zx + zy, "-": lambda: zx - zy, "<": lambda: zx < zy, "<=": lambda: zx <= zy, ">": lambda: zx > zy,
+             ">=": lambda: zx >= zy, "Equals": lambda: zx == zy, "NotEquals": lambda: zx != zy, "*c": lambda: zx * 3, "c-": lambda: 7 - zx,
+             "Ite": lambda: z3.If(zx < zy, zx, zy)}
+    return table[nm]()
+
+
+def check_shapes(env, inst, timeout_ms=10000):
+    nm, srt, x, y = inst
+    name = "shape"
+    m = env.formula_manager
+    rp = {"kind": "shape", "op": nm, "x": bp.to_bp(x), "y": bp.to_bp(y) if y is not None else None}
+    desc = "%s on %s%s" % (nm, x.serialize()[:80], (" and " + y.serialize()[:80]) if y is not None else "")
+    try:
+        f = shape_apply(nm, srt, x, y, m)
+    except Exception as e:
+        return {"name": name, "status": "viol", "signature": "operand-shape/%s/raises:%s" % (nm, type(e).__name__),
+                "describe": "%s raises %r" % (desc, e), "replay": rp}
+    tr = Z3Tr()
+    try:
+        zf = tr.tr(f)
+        zx = tr.tr(x)
+        zy = tr.tr(y) if y is not None else None
+        ze = shape_expect(nm, srt, zx, zy)
+    except Untranslatable as e:
+        return {"name": name, "status": "inconc", "reason": str(e)}
+    if not zf.sort().eq(ze.sort()):
+        return {"name": name, "status": "viol", "signature": "operand-shape/%s/sort" % nm, "describe": "%s has sort %s" % (desc, zf.sort()),
+                "replay": rp}
+    if zf.eq(ze):
+        return {"name": name, "status": "ok", "same": True, "nontrivial": True}
+    st, mo, dt = tv.check_valid(zf == ze, timeout_ms, premises=tr.defined)
+    if st == "unsat":
+        return {"name": name, "status": "ok", "queried": True, "t": dt, "nontrivial": True,
+                "sample": {"operator": nm, "operands": desc, "built": f.serialize()[:150], "verdict": "equal for all values"}}
+    if st == "sat":
+        return {"name": name, "status": "viol", "signature": "operand-shape/%s/value" % nm, "queried": True, "t": dt,
+                "describe": "%s = %s does not denote the operator applied to the operands (model %s)" % (desc, f.serialize()[:200], mo),
+                "replay": rp}
+    return {"name": "shape:%s" % desc, "status": "inconc", "reason": "unknown %s" % mo, "queried": True, "t": dt}
+
+
+tv.register("c06-shapes", gen_shapes, check_shapes)
+
+
 def xh_literal_family(run):
     """symbolic Python literal operand (engine XH)"""
     from props import c02, c06_xh
@@ -382,6 +500,12 @@ def replay(data):
         d["mod"] = "props.c06_xh"
         return replay_call(d)
     env = tv.fresh_env()
+    if data.get("kind") == "shape":
+        env.enable_infix_notation = True
+        x = bp.from_bp(data["x"], env)
+        y = bp.from_bp(data["y"], env) if data["y"] is not None else None
+        r = check_shapes(env, (data["op"], x.get_type(), x, y), timeout_ms=60000)
+        return (True, r["describe"]) if r["status"] == "viol" else (False, "status=%s" % r["status"])
     for tier in ("quick", "thorough"):
         S, cs = cases(env, tier)
         for c in cs:
@@ -405,6 +529,10 @@ def run(run, only=None):
     run.assumptions = ["z3's SMod / AtMost / PbEq / RepeatBitVec / Rotate* are the named mathematical functions"]
     if not only or "c06-derived" in only:
         tv.run_family(run, "c06-derived", run.tier)
+    if not only or "c06-shapes" in only:
+        tv.run_family(run, "c06-shapes", run.tier)
+        run.bounds["operand shapes"] = ("every infix operator / method applied to compound operands: one representative per (operator, "
+                                        "argument shape) of the C01 level-1 grammar + n-ary sums/products with a constant in every position")
     if not only or "xh-literal" in only:
         run.functions.append({"module": "pysmt/fnode.py", "what": "FNode._apply_infix/_infix_prepare_arg and the infix/method operators "
                               "with a symbolic Python literal (CrossHair)", "sha1": core.src_sha("pysmt/fnode.py", "pysmt/formula.py")})
